@@ -5,18 +5,107 @@
 package c17
 
 import (
+	"bytes"
 	"context"
 	"encoding/json"
 	"fmt"
+	"io"
+	"net/http"
 	"os"
 	"strings"
 	"sync"
 	"time"
 
+	digest "github.com/opencontainers/go-digest"
+	"github.com/regclient/regclient"
+	"github.com/regclient/regclient/config"
+	"github.com/regclient/regclient/scheme/reg"
+	"github.com/regclient/regclient/types/descriptor"
+	"github.com/regclient/regclient/types/ref"
 	"github.com/regclient/regclient/verifhook"
 
 	"verifharness/lib"
+	"verifharness/memrt"
 )
+
+// runHTTPResume: the host throttle as the registry client uses it.  G readers fetch a blob through one client whose
+// host allows Max[0] concurrent requests; every body is cut short Iters times, so every reader re-issues its request
+// while holding (or giving back) its slot.  Whatever the interleaving: all reads finish (nobody waits for a slot that
+// only he can free), and afterwards the throttle is empty.
+func runHTTPResume(c Case, res *lib.Result) {
+	blobB := bytes.Repeat([]byte("0123456789abcdef"), 8)
+	var mu sync.Mutex
+	cuts := map[string]int{}
+	rt := &memrt.RT{}
+	rt.Handler = func(req *http.Request, body []byte, n int) *http.Response {
+		if !strings.Contains(req.URL.Path, "/blobs/") {
+			return memrt.Resp(404, nil, nil)
+		}
+		start := 0
+		status := 200
+		h := map[string]string{"Content-Type": "application/octet-stream"}
+		if rg := req.Header.Get("Range"); rg != "" {
+			fmt.Sscanf(rg, "bytes=%d-", &start)
+			status = 206
+			h["Content-Range"] = fmt.Sprintf("bytes %d-%d/%d", start, len(blobB)-1, len(blobB))
+		}
+		bodyB := blobB[start:]
+		h["Content-Length"] = fmt.Sprint(len(bodyB))
+		rs := memrt.Resp(status, h, nil)
+		who := req.URL.Path[:strings.Index(req.URL.Path, "/blobs/")]
+		mu.Lock()
+		cuts[who]++
+		k := cuts[who]
+		mu.Unlock()
+		if k <= c.Iters && len(bodyB) > 9 {
+			rs.Body = &memrt.DropBody{B: bodyB, K: 9}
+		} else {
+			rs.Body = &memrt.DropBody{B: bodyB, K: len(bodyB)}
+		}
+		rs.ContentLength = int64(len(bodyB))
+		return rs
+	}
+	rc := regclient.New(regclient.WithConfigHost(config.Host{Name: "reg.example", Hostname: "reg.example", TLS: config.TLSDisabled, ReqConcurrent: int64(c.Max[0])}),
+		regclient.WithRegOpts(reg.WithHTTPClient(&http.Client{Transport: rt}), reg.WithDelay(time.Millisecond, 3*time.Millisecond), reg.WithRetryLimit(c.G*c.Iters+3))) // the backoff count is per host: all readers' cuts add up
+	ctx, cancel := context.WithTimeout(context.Background(), 6*time.Second)
+	defer cancel()
+	var wg sync.WaitGroup
+	errs := make([]error, c.G)
+	for g := 0; g < c.G; g++ {
+		wg.Add(1)
+		go func(g int) {
+			defer wg.Done()
+			defer func() {
+				if p := recover(); p != nil {
+					errs[g] = fmt.Errorf("panic: %v", p)
+				}
+			}()
+			r, _ := ref.New(fmt.Sprintf("reg.example/repo%d:tag", g))
+			rd, err := rc.BlobGet(ctx, r, descriptor.Descriptor{Digest: digest.FromBytes(blobB), Size: int64(len(blobB))})
+			if err == nil {
+				var out []byte
+				out, err = io.ReadAll(rd)
+				_ = rd.Close()
+				if err == nil && !bytes.Equal(out, blobB) {
+					err = fmt.Errorf("wrong content")
+				}
+			}
+			errs[g] = err
+		}(g)
+	}
+	wg.Wait()
+	if ctx.Err() != nil {
+		res.Fail("resumed-requests-deadlock", fmt.Sprintf("%d readers through a host throttle of %d slots, every body cut short %d time(s): not finished after 6s (errors %v)", c.G, c.Max[0], c.Iters, errs), c)
+		return
+	}
+	for g, e := range errs {
+		if e != nil {
+			res.Fail("resumed-request-failed", fmt.Sprintf("reader %d of %d (throttle %d, %d cuts each within the retry limit) failed: %v", g, c.G, c.Max[0], c.Iters, e), c)
+			return
+		}
+	}
+	res.Count(fmt.Sprintf("httpresume:max=%d,g=%d", c.Max[0], c.G))
+}
 
 type Op struct {
 	K     string // acq | try | rel | cancel | race
@@ -655,6 +744,8 @@ func runCaseRaw(c Case, res *lib.Result) string {
 		return runMultiScript(c, res)
 	case "multirand":
 		runMultiRand(c, res)
+	case "httpresume":
+		runHTTPResume(c, res)
 	}
 	return ""
 }
@@ -699,6 +790,10 @@ func Run(o lib.Opts) {
 			f2 = append(f2, Op{K: "race", Q: 0, ID: 1, ID2: m + 2}, Op{K: "race", Q: 0, ID: m + 1, ID2: m + 3})
 			all = append(all, Case{Kind: "single", Max: []int{m}, Next: []string{nx}, Ops: f2})
 		}
+	}
+	// the host throttle under resumed reads: one slot and one reader, n slots and n readers, more readers than slots
+	for _, mg := range [][3]int{{1, 1, 1}, {1, 1, 2}, {1, 3, 1}, {2, 2, 2}, {3, 3, 1}, {2, 5, 2}} {
+		all = append(all, Case{Kind: "httpresume", Max: []int{mg[0]}, G: mg[1], Iters: mg[2]})
 	}
 	nS, nM, nR := o.Scale(300, 12000), o.Scale(40, 1500), o.Scale(25, 600)
 	for i := 0; i < nS; i++ {
